@@ -2,3 +2,4 @@ CONSTANTS
   ReuseChecksCB = TRUE
   ReuseChecksCN = TRUE
   SubtractBroken = TRUE
+  EvvSigned = TRUE
